@@ -19,7 +19,7 @@ import (
 
 type gact struct {
 	AtMs int64 `json:"at_ms"`
-	Kind int   `json:"kind"` // 1 application send, 2 inbound Heartbeat, 3 inbound application message, 4 inbound ResendRequest(1,0)
+	Kind int   `json:"kind"` // 1 application send, 2 inbound Heartbeat, 3 inbound application message, 4 inbound ResendRequest(1,0), 5 inbound retransmission (PossDupFlag=Y, an old number)
 }
 
 type gridCase struct {
@@ -101,6 +101,10 @@ func gridRun(c gridCase) (o gridObs, sig, detail string) {
 		case 3:
 			o.inAt = append(o.inAt, vsched.NowOffset())
 			w.h.ServeIncoming(w.msg("D", "11=x"))
+		case 5:
+			// a message the peer sends again (PossDupFlag=Y, the number it had the first time): inbound traffic like any other
+			o.inAt = append(o.inAt, vsched.NowOffset())
+			w.h.ServeIncoming(rawFrom(w.peer, w.self, "D", 1, "43=Y", "11=again"))
 		case 4:
 			// the retransmissions it draws are outbound traffic like any other
 			o.inAt = append(o.inAt, vsched.NowOffset())
@@ -406,10 +410,11 @@ func runGrid(R *vlib.Out, prop string) {
 		"C09": {"quick": {1, 20, 40}, "thorough": {1, 5, 20, 39, 40, 60}},
 	}[prop][*vlib.Tier]
 	maxActs := 2
-	nKinds := 3
+	kindsOf := []int{1, 2, 3}
 	if prop == "C08" {
-		nKinds = 4
+		kindsOf = []int{1, 2, 3, 4}
 	}
+	nKinds := len(kindsOf)
 	R.Bounds["N"] = fmt.Sprint(Ns)
 	R.Bounds["max_actions_fine_grid"] = maxActs
 	unit := 0
@@ -447,6 +452,23 @@ func runGrid(R *vlib.Out, prop string) {
 					}
 				}
 				return true
+			}
+			if prop == "C09" {
+				// retransmissions from the peer (PossDupFlag=Y) are inbound traffic too: one anywhere on the
+				// grid, two on the coarse grid
+				for _, t := range grid {
+					if !try(gridCase{Role: role, N: N, Acts: []gact{{t, 5}}, Horizon: horizon, Pattern: "possdup"}) {
+						return
+					}
+				}
+				cg := gridPoints(N, true)
+				for i, t1 := range cg {
+					for _, t2 := range cg[i+1:] {
+						if !try(gridCase{Role: role, N: N, Acts: []gact{{t1, 5}, {t2, 5}}, Horizon: horizon, Pattern: "possdup"}) {
+							return
+						}
+					}
+				}
 			}
 			if !rec(0, nil, maxActs, grid) {
 				return
@@ -486,7 +508,7 @@ func runGrid(R *vlib.Out, prop string) {
 					rg = gridPoints(N, true) // multiples of the polling period and the deadlines +-1 ms
 				}
 				for _, t := range rg {
-					for k := 1; k <= nKinds; k++ {
+					for _, k := range kindsOf {
 						if !try(gridCase{Role: role, N: N, PrevN: prev, Acts: []gact{{t, k}}, Horizon: horizon, Pattern: "relogon"}) {
 							return
 						}
@@ -524,7 +546,10 @@ func runGrid(R *vlib.Out, prop string) {
 			// steady traffic for 6 periods: inbound (kind 2) and outbound (kind 1) with period N, N-tau, N+T/10
 			Nms := int64(N) * 1000
 			for _, per := range []int64{Nms, Nms - Nms/10, Nms + Tms/10, Nms / 2} {
-				for _, kind := range []int{1, 2, 3} {
+				for _, kind := range []int{1, 2, 3, 5} {
+					if kind == 5 && prop != "C09" {
+						continue
+					}
 					var acts []gact
 					for t := per; t <= 6*Nms; t += per {
 						acts = append(acts, gact{t, kind})
